@@ -23,8 +23,9 @@ import re
 
 
 class Dfx:
-    def __init__(self, body):
+    def __init__(self, body, opaque=()):
         self.b = body
+        self.opaque = set(opaque)     # locals never replaced by their definition (mutated through `&mut` by callees)
         self.defs = {}           # local -> list of ("stmt", bi, si, st) | ("call", bi, term)
         for bi, bl in enumerate(body.blocks):
             for si, st in enumerate(bl["stmts"]):
@@ -62,7 +63,7 @@ class Dfx:
         if local in self._memo:
             return self._memo[local]
         d = self.single_def(local)
-        if d is None or depth > 60:
+        if d is None or depth > 60 or local in self.opaque:
             return ("var", local)
         self._memo[local] = ("var", local)      # cycle guard
         if d[0] == "stmt":
